@@ -465,7 +465,7 @@ func c17GenTree(r *rng, depth int, nextID *int) *atree {
 	letters := []string{"r", "p", "c", "a", "R"}
 	// keys that extend another key with a byte below, at and above '.' (sorting composed names is not sorting keys)
 	special := []string{"rpc", "rp", ".", "a.b", "é", "", "x", "rpc.x", "serverInfo", "r.", ".r", "日本",
-		"a-", "a-b", "a b", "a!", "a/", "a0", "r-", "r ", "r/", "rpc-x", "p,", "p+q"}
+		"a-", "a-b", "a b", "a!", "a/", "a0", "r-", "r ", "r/", "rpc-x", "p,", "p+q", "*", "*", "r*", "?", "%"}
 	genKey := func() string {
 		switch k := r.intn(20); {
 		case k < 12:
@@ -638,6 +638,16 @@ func c17Main(cfg *config) {
 		// nested, with keys "a", "a b", "a!" at both levels
 		"s[61:s[61:m[78=1;];6121:m[78=2;];];612062:m[78=3;7a=4;];6121:m[79=5;];]",
 	}
+	// a key that is an asterisk is a name like any other (no wildcard); method names longer than any buffer or
+	// echo limit a server might have are dispatched under their exact spelling (keys of 300 and 5000 bytes, and
+	// their prefixes of 255..257 bytes as keys of their own)
+	long := strings.Repeat("abcdefghij", 500)
+	fixed = append(fixed,
+		"m[2a=1;78=2;]",
+		"s[73:m[2a=1;70=2;];2a:m[78=3;2a=4;];]",
+		fmt.Sprintf("m[%s=1;%s=2;%s=3;%s=4;%s=5;]", hexf(long[:300]), hexf(long[:256]), hexf(long[:257]), hexf(long[:255]), hexf(long)),
+		fmt.Sprintf("s[%s:m[%s=1;78=2;];73:m[%s=3;];]", hexf(long[:300]), hexf(long[:257]), hexf(long[:300])),
+	)
 	var trees []*atree
 	for _, s := range fixed {
 		trees = append(trees, parseTree(s))
